@@ -8,12 +8,12 @@ from .common import run_control, generic_rules
 
 def analyse(ctx: CheckContext, p: Program):
     r = Resolver(p)
-    generic_rules(ctx, p, r, "C20")
-    dispatch.check_dispatch(ctx, p, r)
-    dispatch.check_lmtd_guard(ctx, p, r)
+    ctx.guard(generic_rules, ctx, p, r, "C20")
+    ctx.guard(dispatch.check_dispatch, ctx, p, r)
+    ctx.guard(dispatch.check_lmtd_guard, ctx, p, r)
     # the relations are functions of their arguments only: nothing in the module writes module-level state (memo tables keyed too coarsely etc.)
     fs = [f for f in p.all_funcs if f.module.name == "OpenPinch.utils.heat_exchanger"]
-    effect.check_module_state(ctx, p, r, fs, rule="PURE")
+    ctx.guard(effect.check_module_state, ctx, p, r, fs, rule="PURE")
 
 
 def run(ctx: CheckContext):
